@@ -6,7 +6,7 @@
    [prof items S]/[wgt items S] its profit/weight; [node_sel a1 b D] is the search node "items < a1 in,
    a1 <= i < b as decided by D, items >= b out" (a1 = Python's a + 1). *)
 From PB Require Import Model.MaxWelfare Oracle.C04 Proofs.KnapsackP Proofs.MaxWelfareP Proofs.IlpCutP
-                       Proofs.WelfareBFP.
+                       Proofs.IlpAllocP Proofs.WelfareBFP.
 Open Scope Q_scope.
 
 (* ---------------- primal/dual knapsack ---------------- *)
@@ -130,6 +130,33 @@ Theorem C04_ilp_enumeration : forall (solve : list Q -> list lrow -> option (lis
           dot (map (score_of score) (ilp_vars enum init)) y <= dot (map (score_of score) (ilp_vars enum init)) x)).
 Proof. exact ilp_enumeration. Qed.
 Print Assumptions C04_ilp_enumeration.
+
+(* the same at the level of budget allocations: under the solver hypothesis the irresolute ILP rule returns
+   exactly the welfare-maximal feasible allocations extending the initial one -- every returned allocation is
+   one (sound), every one is returned up to the order of its projects (complete), none twice, not even as a
+   set (exactly once) *)
+Theorem C04_ilp_enumeration_allocs : forall (solve : list Q -> list lrow -> option (list bool)) (n : nat),
+  (forall (obj : list Q) (rows : list lrow), length obj = n ->
+     match solve obj rows with
+     | Some x => length x = n /\ rows_ok rows x = true /\
+                 (forall y, length y = n -> rows_ok rows y = true -> dot obj y <= dot obj x)
+     | None => forall y, length y = n -> rows_ok rows y = false
+     end) ->
+  forall (I : inst) (score : list Q) (enum init : list proj) (fuel : nat),
+  NoDup enum -> (forall p, In p enum <-> (p < nproj I)%nat) -> NoDup init -> incl init enum ->
+  length (ilp_vars enum init) = n -> (2 ^ n < fuel)%nat ->
+  forall x0,
+  solve (map (score_of score) (ilp_vars enum init))
+        [mkRow (map (cost I) (ilp_vars enum init)) SLe (budget I - tcost I init)] = Some x0 ->
+  exists outs, ilp_scheme solve fuel I score enum init false = Some outs /\
+    (forall W, In W outs -> feasible I W /\ incl init W /\
+       forall W', feasible I W' -> incl init W' -> welfare score W' <= welfare score W) /\
+    (forall W', feasible I W' -> incl init W' ->
+       (forall W'', feasible I W'' -> incl init W'' -> welfare score W'' <= welfare score W') ->
+       exists W, In W outs /\ Permutation W W') /\
+    NoDup outs /\ (forall W1 W2, In W1 outs -> In W2 outs -> Permutation W1 W2 -> W1 = W2).
+Proof. exact ilp_enumeration_allocs. Qed.
+Print Assumptions C04_ilp_enumeration_allocs.
 
 Theorem C04_ilp_resolute_optimal : forall (solve : list Q -> list lrow -> option (list bool)) (n : nat),
   (forall (obj : list Q) (rows : list lrow), length obj = n ->
